@@ -366,11 +366,16 @@ type gateStore struct {
 	killNext bool
 	inKill   bool
 	hdr      byte
+	// second gate: the readers of the state-diff-length backfill, parked at the read of a
+	// block's commitments (one block = one unit of that pipeline)
+	sdOn     bool
+	sdParked []chan struct{}
+	cmt      byte
 }
 
 func newGate(inner db.KeyValueStore) *gateStore {
 	g := &gateStore{Store: faultkv.Wrap(inner), inner: inner, parked: map[uint64]chan struct{}{},
-		events: make(chan event, 4096), hdr: db.BlockHeaderByNumberKey(0)[0]}
+		events: make(chan event, 4096), hdr: db.BlockHeaderByNumberKey(0)[0], cmt: db.BlockCommitmentsKey(0)[0]}
 	g.Store.OnWrite = g.onWrite
 	return g
 }
@@ -383,6 +388,10 @@ func (g *gateStore) setOn(on bool) {
 			close(ch)
 			delete(g.parked, r)
 		}
+		for _, ch := range g.sdParked {
+			close(ch)
+		}
+		g.sdParked, g.sdOn = nil, false
 	}
 	g.mu.Unlock()
 }
@@ -403,7 +412,32 @@ func (g *gateStore) Get(key []byte, cb func([]byte) error) error {
 			}
 		}
 	}
+	if len(key) == 9 && key[0] == g.cmt {
+		g.mu.Lock()
+		if g.sdOn {
+			ch := make(chan struct{})
+			g.sdParked = append(g.sdParked, ch)
+			g.mu.Unlock()
+			g.events <- event{kind: "sd-arrive", r: binary.BigEndian.Uint64(key[1:])}
+			<-ch
+		} else {
+			g.mu.Unlock()
+		}
+	}
 	return g.Store.Get(key, cb)
+}
+
+// sdRelease lets every parked backfill reader go on; off also disables the gate.
+func (g *gateStore) sdRelease(off bool) {
+	g.mu.Lock()
+	for _, ch := range g.sdParked {
+		close(ch)
+	}
+	g.sdParked = nil
+	if off {
+		g.sdOn = false
+	}
+	g.mu.Unlock()
 }
 
 var dummyKey = []byte{0xfe, 'k', 'i', 'l', 'l'}
